@@ -51,7 +51,7 @@ fn judge_htyp(htyp: u8, mode: usize, fill: usize, loc: &mut Local) {
         b = x;
     }
     let filter = if mode >= 2 {
-        Some(dlt_core::filtering::ProcessedDltFilterConfig { min_log_level: None, app_ids: None, ecu_ids: Some([ecu_text.as_str(), "STOR"].iter().map(|s| s.to_string()).collect()), context_ids: None, app_id_count: 0, context_id_count: 0 })
+        Some(crate::common::PF { min_log_level: None, app_ids: None, ecu_ids: Some([ecu_text.as_str(), "STOR"].iter().map(|s| s.to_string()).collect()), context_ids: None, app_id_count: 0, context_id_count: 0 }.build())
     } else {
         None
     };
